@@ -4,7 +4,7 @@
 From Coq Require Import Permutation.
 From Eino Require Import Base.Util Base.FMUniverse Model.FieldMap Proofs.FieldMapOverlap
   Model.FieldMapOwn Proofs.FieldMapAssign Proofs.FieldMapComm Proofs.FieldMapGetPut Proofs.FieldMapRun
-  Proofs.FieldMapOwn.
+  Proofs.FieldMapOwn Model.FieldMapPromote Proofs.FieldMapPromote.
 
 (* ---------------------------------------------------------------- overlap detection *)
 
@@ -346,3 +346,111 @@ Theorem static_values_order_independent :
       run_invoke_s env T ds ss ckss srcs = run_invoke_s env T ds ss' ckss srcs.
 Proof. exact statics_order_independent. Qed.
 Print Assumptions static_values_order_independent.
+
+(* ---------------------------------------------------------------- promoted fields (embedded structs) *)
+
+(* Paths may name a field promoted from an embedded struct by its short name (Go's
+   FieldByName).  Model/FieldMapPromote.v elaborates every declared path along the static
+   type into its explicit spelling ([expand] = canonicalTargetPath of workflow.go, and what
+   the walkers' fieldByName does step by step since F-C15k); compile_x / run_invoke_x /
+   run_stream_x are Compile / Invoke / Stream on the declarations as written.  The elaborated
+   spelling is canonical: spelling it out again changes nothing. *)
+Theorem promoted_canonical :
+  forall (env : senv) (pe : penv), penv_wf env pe = true ->
+    forall (p : path) (t : ty), expand env pe t (expand env pe t p) = expand env pe t p.
+Proof. exact expand_idempotent. Qed.
+Print Assumptions promoted_canonical.
+
+(* Whatever Compile accepts has no two targets (mappings of any declaration, static values)
+   that denote the same slot or a slot and something inside it, HOWEVER they are spelled
+   (F-C15l: ToField(X) beside ToFieldPath{Inner,X} or ToField(Inner) used to be accepted). *)
+Theorem promoted_overlap_rejected :
+  forall (env : senv) (pe : penv) (T : ty) (ds : list decl) (ss : statics) (ckss : list checks),
+    compile_x env pe T ds ss = CAccept ckss ->
+    no_conflict (all_targets (expand_decls env pe T ds) ++ map fst (expand_keys env pe T ss)).
+Proof. exact compile_x_no_alias. Qed.
+Print Assumptions promoted_overlap_rejected.
+
+(* mapped_get_put for the declared spelling: never a panic; the slot a declared target
+   path denotes holds the value found at the slot the declared source path denotes. *)
+Theorem mapped_get_put_promoted :
+  forall (env : senv) (pe : penv) (T : ty) (ds : list decl) (ss : statics) (ckss : list checks) (srcs : list val),
+    compile_x env pe T ds ss = CAccept ckss -> has_plain ds = false ->
+    Forall2 (fun d s => has_type env (d_ty d) s = true) ds srcs ->
+    match run_invoke_x env pe T ds ss ckss srcs with
+    | Panic => False
+    | Err _ => True
+    | Ok v =>
+        (forall d s from to, In (d, s) (combine ds srcs) -> In (from, to) (d_maps d) ->
+           exists x st b, take_path env s (expand env pe (d_ty d) from) = Ok x /\
+                          extract_ty env T (expand env pe T to) = SOk st b /\
+                          take_path env v (expand env pe T to) = Ok (conv st x)) /\
+        (forall to x, In (to, x) ss ->
+           exists st b, extract_ty env T (expand env pe T to) = SOk st b /\
+                        take_path env v (expand env pe T to) = Ok (conv st x)) /\
+        (forall q z, q <> [] ->
+           fresh_for q (all_targets (expand_decls env pe T ds) ++ map fst (expand_keys env pe T ss)) ->
+           take_path env v q = Ok z -> exists st b, extract_ty env T q = SOk st b /\ z = zero st)
+    end.
+Proof. exact invoke_spec_x. Qed.
+Print Assumptions mapped_get_put_promoted.
+
+Theorem runtime_check_errors_promoted :
+  forall (env : senv) (pe : penv) (T : ty) (ds : list decl) (ss : statics) (ckss : list checks),
+    compile_x env pe T ds ss = CAccept ckss ->
+    (forall srcs, Forall2 (fun d s => has_type env (d_ty d) s = true) ds srcs ->
+                  run_invoke_x env pe T ds ss ckss srcs <> Panic) /\
+    (forall chunkss, Forall2 (fun d cs => Forall (fun c => has_type env (d_ty d) c = true) cs) ds chunkss ->
+                     run_stream_x env pe T ds ss ckss chunkss <> Panic).
+Proof. exact run_no_panic_x. Qed.
+Print Assumptions runtime_check_errors_promoted.
+
+(* the harness's struct Emb (= 3): Leaf (= 30) embedded by value, *Inner (= 31) embedded by
+   pointer, W (= 32); the fields of Leaf and Inner are promoted *)
+Definition ex_envp : senv :=
+  ex_env ++ [(3, [(30, (true, TStruct 0)); (31, (true, TPtr (TStruct 1))); (32, (true, TInt))])]%N.
+Definition ex_penv : penv :=
+  [(3, [(0, [30]); (1, [30]); (2, [31]); (3, [31]); (4, [31]); (5, [31]); (6, [31]); (7, [31]); (8, [31]); (9, [31])])]%N.
+
+Example promoted_nonvacuous :
+  penv_wf ex_envp ex_penv = true /\
+  expand ex_envp ex_penv (TStruct 3) [2]%N = [31; 2]%N /\
+  expand ex_envp ex_penv (TMap true (TPtr (TStruct 3))) [100; 5; 0]%N = [100; 31; 5; 0]%N /\
+  (* X (promoted through the nil embedded pointer, instantiated on the way), A, Inner.Y, W *)
+  (let ds := [ {| d_ty := TInt; d_maps := [([], [2])] |}; {| d_ty := TStruct 3; d_maps := [([0], [0]); ([3], [31; 3])] |};
+               {| d_ty := TInt; d_maps := [([], [32])] |} ]%N in
+   exists ckss,
+     compile_x ex_envp ex_penv (TStruct 3) ds [] = CAccept ckss /\
+     run_invoke_x ex_envp ex_penv (TStruct 3) ds [] ckss
+       [VInt 5; VStruct 3 [(30, VStruct 0 [(0, VInt 6)]); (31, VPtr (TStruct 1) (Some (VStruct 1 [(3, VStr "y")])))]; VInt 7]%N
+     = Ok (VStruct 3 [(30, VStruct 0 [(0, VInt 6)]);
+                      (31, VPtr (TStruct 1) (Some (VStruct 1 [(2, VInt 5); (3, VStr "y")]))); (32, VInt 7)])%N /\
+     (* the source's embedded pointer is nil: a request-time error *)
+     run_invoke_x ex_envp ex_penv (TStruct 3) ds [] ckss [VInt 5; VStruct 3 []; VInt 7]%N = Err ESrc).
+Proof.
+  split; [vm_compute; reflexivity|]. split; [vm_compute; reflexivity|]. split; [vm_compute; reflexivity|].
+  eexists. split; [vm_compute; reflexivity|]. split; vm_compute; reflexivity.
+Qed.
+
+(* Before F-C15l the overlap check saw the targets as spelled: X beside Inner.X (the same
+   field) and X beside Inner (the embedded pointer as a whole) were accepted, the outcome of
+   convertTo then depends on the iteration order of its map, and in one of the orders it
+   writes into the predecessor's *Inner. The repaired Compile rejects both. *)
+Theorem promoted_overlap_v0_refuted :
+  let d1 := {| d_ty := TInt; d_maps := [([], [2])] |}%N in
+  let d2 := {| d_ty := TInt; d_maps := [([], [31; 2])] |}%N in
+  let d3 := {| d_ty := TPtr (TStruct 1); d_maps := [([], [31])] |}%N in
+  accepts_x_v0 ex_envp ex_penv (TStruct 3) [d1; d2] = true /\
+  accepts_x_v0 ex_envp ex_penv (TStruct 3) [d1; d3] = true /\
+  compile_x ex_envp ex_penv (TStruct 3) [d1; d2] [] = CErrOverlap /\
+  compile_x ex_envp ex_penv (TStruct 3) [d3; d1] [] = CErrOverlap /\
+  (let m := [([2], VInt 1); ([31; 2], VInt 2)]%N in
+   convert_to_x ex_envp ex_penv (TStruct 3) m <> convert_to_x ex_envp ex_penv (TStruct 3) (rev m)) /\
+  (let m := [([31], VPtr (TStruct 1) (Some (VStruct 1 [(3, VStr "src")]))); ([2], VInt 1)]%N in
+   exists d, convert_to_w ex_envp (TStruct 3) (expand_keys ex_envp ex_penv (TStruct 3) m) = Ok (d, true)).
+Proof.
+  cbv zeta. split; [vm_compute; reflexivity|]. split; [vm_compute; reflexivity|].
+  split; [vm_compute; reflexivity|]. split; [vm_compute; reflexivity|].
+  split; [vm_compute; discriminate|]. eexists. vm_compute. reflexivity.
+Qed.
+Print Assumptions promoted_overlap_v0_refuted.
